@@ -139,6 +139,13 @@ class HeapParam:
         self.cls = cls
 
 
+class CustomParam:
+    """a parameter whose symbolic value is built by `make(eng, st, name) -> Val` (records, helper values)"""
+
+    def __init__(self, make):
+        self.make = make
+
+
 class Contract:
     def __init__(self, qualname, params, requires=None, ensures=None, raises=None, loops=None,
                  local_types=None, modifies=None, result_type=None, assumed_asserts=None,
